@@ -403,6 +403,11 @@ def slice_dischargers(ctx):
                             (bo is not None and bo.kind == 'callres' and (bo.data.callee or '').endswith('::len_utf8'))
                     if r and small:
                         return ('D-bound', 'char boundary (<= isize::MAX) + at most 4 cannot overflow usize')
+                if payload['op'] == 'SubWithOverflow':
+                    from analysis import Origin
+                    r2, w2 = sm.origin_b(body, Origin('binop', (b, i, payload), (('f', 0),)))
+                    if r2:
+                        return ('D-bound', 'the difference is itself a proved position of the input (%s): the subtrahend is the length of a suffix of the minuend\'s string' % w2)
                 if payload['op'] == 'SubWithOverflow' and op_const_int(payload['b']) == 1:
                     # must be the operand of a vetted slice bound in this body
                     for c in body.live_calls:
